@@ -11,3 +11,4 @@ open Jomini.Props.C15
 #print axioms C15_total_run
 #print axioms C15_error_state_unreachable
 #print axioms C15_ints
+#print axioms C15_lexemes_partial
